@@ -213,9 +213,11 @@ Definition my_is_lenenc_type (t : N) : bool :=
      MY_T_TIMESTAMP; MY_T_DATETIME; MY_T_TIME; MY_T_VARCHAR; MY_T_TINYBLOB; MY_T_MEDIUMBLOB; MY_T_LONGBLOB;
      MY_T_BLOB; MY_T_VARSTRING; MY_T_STRING].
 
-(** rowData[pos:pos+w] on a slice whose capacity is its length *)
+(** rowData[pos:pos+w] of a fixed-width value; extractData first checks the width of every type of
+    base_mysql.NumericTypesStorageBytes (all integer and float types, Gen/WireMysqlConsts.v MY_NUMERIC_STORAGE)
+    against the rest of the row: a row that ends inside the value is ErrMalformPacket, not a slice panic *)
 Definition my_slice (data : bytes) (pos w : nat) : res bytes :=
-  if (pos + w <=? length data)%nat then Ok (sub pos w data) else Panic.
+  if (pos + w <=? length data)%nat then Ok (sub pos w data) else Err E_MALFORMED.
 
 (** extractData *)
 Definition my_extract (pos : nat) (row : bytes) (cd : coldef) : res bytes :=
